@@ -50,3 +50,13 @@ Print Assumptions C12_decoders_total.
 Theorem C12_base36_fuel : forall d, bytes_okb d = true -> base36_encode d <> fuel_exhausted.
 Proof. intros d H. apply (proj1 (Properties_C15.C15_fuel_unreachable) d H) || exact (proj1 Properties_C15.C15_fuel_unreachable d H). Qed.
 Print Assumptions C12_base36_fuel.
+
+(* get_hmac: every copy into the key / inner / outer buffers stays inside the buffer as sized, for all key and message lengths, and the
+   size_t sums that size them do not wrap under the documented guard msg_len <= SIZE_MAX - block_size *)
+Theorem C12_hmac_in_bounds : forall (t : hash_t) (key_len msg_len : nat),
+  forallb (fun ar => in_array (fst ar) (snd ar)) (hmac_accesses t key_len msg_len) = true.
+Proof. exact hmac_accesses_in_bounds. Qed.
+Print Assumptions C12_hmac_in_bounds.
+Theorem C12_hmac_sizes : forall (t : hash_t) (msg_len : N), msg_len <= 2 ^ 64 - 1 - N.of_nat (block_size t) -> hmac_sizes_no_wrap t msg_len = true.
+Proof. exact hmac_sizes_guarded. Qed.
+Print Assumptions C12_hmac_sizes.
